@@ -346,6 +346,23 @@ func (m *Monitor) checkCrash(w *World, pre raft.VNode, op Op, post raft.VNode) *
 		if num("term") < pre.Term {
 			return &Bad{"C10", fmt.Sprintf("crash at %s: restart has term %d below %d", c.Point, num("term"), pre.Term)}
 		}
+		// the log is contiguous with the snapshot in CONTENT too: an entry the log still holds at the snapshot
+		// index is the entry the snapshot covers (same term); otherwise the log is a stale branch
+		if si, st := num("snapIndex"), num("snapTerm"); si > 0 && lg != nil {
+			if es, ok := lg["entries"].([]interface{}); ok {
+				for _, x := range es {
+					e, _ := x.(map[string]interface{})
+					var ei, et uint64
+					a, _ := e["index"].(string)
+					b, _ := e["term"].(string)
+					fmt.Sscanf(a, "#%d", &ei)
+					fmt.Sscanf(b, "#%d", &et)
+					if ei == si && et != st {
+						return &Bad{"C10/C04/C09", fmt.Sprintf("crash at %s: restart has snapshot (%d,%d) but its log holds (%d,%d): the log is not the continuation of the snapshot", c.Point, si, st, ei, et)}
+					}
+				}
+			}
+		}
 	}
 	return nil
 }
